@@ -265,7 +265,7 @@ CHECKS["C12"] = dict(
     assumptions=[
         "note-ons are left out of the verdict (counted) where the statement does not say whether the channel is percussion: drum part assigned outside GS mode or left over after leaving it, "
         "MSB 126/127 in GM mode, MSB selected before the current mode was entered",
-        "for percussion kits the 'bank with LSB cleared' step is accepted both as the 128-aligned kit and as kit 0",
+        "for percussion kits the 'bank with LSB cleared' step is the kit number with its low seven bits cleared: drum kit 0 for drum kits, SFX kit 0 (percussion bank 128) for the XG SFX kits, then drum kit 0",
         "opn2_rt_bankChangeMSB/LSB are documented aliases of CC0/CC32; opn2_rt_bankChange sets both parts",
         "controller and program values stay within 0..127",
     ],
